@@ -39,6 +39,53 @@ def derived_routes(c):
     yield 'boc-idx-crc', lambda: Cell.one_from_boc(c.to_boc(True, True))
     yield 'boc-slice-entry', lambda: Slice.one_from_boc(c.to_boc()).to_cell()
     yield 'boc-builder-entry', lambda: Builder.one_from_boc(c.to_boc()).end_cell()
+    # a bag written by ANOTHER serialiser that stores each cell's hashes/depths in the record (d1 bit 16) - once with the right
+    # values and once with arbitrary ones: whatever the bytes claim, a cell that comes out must report ITS OWN representation hash
+    yield 'boc-foreign-stored-hashes', lambda: Cell.one_from_boc(foreign_boc(c, None))
+    yield 'boc-foreign-bogus-hashes', lambda: _or_rejected(lambda: Cell.one_from_boc(foreign_boc(c, 1)), c)
+    yield 'boc-foreign-bogus-slice-entry', lambda: _or_rejected(lambda: Slice.one_from_boc(foreign_boc(c, 2)).to_cell(), c)
+
+
+def _or_rejected(f, c):
+    """a parser may refuse a bag whose stored hashes are wrong (the reference node does); refusing is not a C01 matter"""
+    try:
+        return f()
+    except Exception:
+        return c
+
+
+def foreign_boc(c, bogus):
+    """independent encoder (C05.py_encode) over the sub-DAG of library cell c, every record carrying stored hashes/depths;
+    bogus: None = the true values, int = seed of arbitrary values"""
+    import random
+    from . import C05
+    order, seen, stack = [], set(), [(c, False)]
+    while stack:                                   # iterative post-order; reversed = parents before children
+        x, done = stack.pop()
+        if done:
+            order.append(x)
+            continue
+        if x.hash in seen:
+            continue
+        seen.add(x.hash)
+        stack.append((x, True))
+        for r in reversed(x.refs):
+            if r.hash not in seen:
+                stack.append((r, False))
+    order.reverse()
+    pos = {x.hash: i for i, x in enumerate(order)}
+    rng = random.Random(f'{bogus}:{c.hash.hex()}')
+    recs = []
+    for x in order:
+        h, d = x.get_hash(0), x.get_depth(0)
+        if bogus is not None:
+            h, d = rng.randbytes(32), rng.choice([0, 1, d + 1, rng.randrange(1024)])
+        recs.append(dict(kind=-1, bits=x.bits.to01(), refs=[pos[r.hash] for r in x.refs], mask=0, hashes=[h], depths=[d]))
+    n = len(recs)
+    tot = sum(len(C05.enc_record(r, 1 if n < 256 else 2, True)) for r in recs)
+    fr = dict(magic='g', size=1 if n < 256 else 2, off=max(1, (tot.bit_length() + 7) // 8), idx=False, crc=bool(bogus), cache=False,
+              store=[True] * n, cflags=[])
+    return C05.py_encode(recs, [0], fr)
 
 
 def cmp_obs(a, b):
